@@ -202,7 +202,7 @@ func preservingRuns(prop, tmpRoot string) map[string]any {
 		out["error"] = "lzrewrite not built"
 		return out
 	}
-	modes := []string{"flipcmp", "demorgan", "opassign", "rename", "swapadd"}
+	modes := []string{"flipcmp", "demorgan", "opassign", "rename", "swapadd", "negateif"}
 	var mu sync.Mutex
 	var wg sync.WaitGroup
 	var silent, alarms, broken []string
